@@ -24,7 +24,7 @@ type clientHello struct {
 	tls13                 bool
 	echExt                *echExt
 	noExtensions          bool
-	trailing              []byte // bytes that follow the extensions inside the message
+	trailing              []byte // bytes that follow the extensions inside the message, or the message in its record
 }
 
 // The ECH Extension as specified in Section 5 of
@@ -201,6 +201,7 @@ func parseClientHello(buf []byte) (*clientHello, error) {
 	// TLS may have no extensions field at all.
 	if s.Empty() {
 		hello.noExtensions = true
+		hello.trailing = zeros
 		return hello, nil
 	}
 
@@ -238,7 +239,7 @@ func parseClientHello(buf []byte) (*clientHello, error) {
 	if err := hello.parseExtensions(); err != nil {
 		return nil, err
 	}
-	hello.trailing = s
+	hello.trailing = append(slices.Clone(s), zeros...)
 	if hello.echExt != nil && hello.echExt.Type == 1 {
 		// Section 5.1: the padding that follows the extensions of an
 		// EncodedClientHelloInner must be all zeros.
